@@ -70,6 +70,9 @@ func pathScenario(id string, pc *pathCell, foreign string) *Scenario {
 		steps = append([]*Step{pre}, steps...)
 	}
 	spec := ProcSpec{Variant: c.Variant}
+	if c.Variant == "envtrimpath" {
+		spec = ProcSpec{Env: map[string]string{"GOFLAGS": "-trimpath"}}
+	}
 	if c.Cwd == "foreign" {
 		spec.Dir = foreign
 	}
